@@ -515,6 +515,9 @@ FIXED_SIZE = re.compile(r'^(bool|\[u8; [A-Za-z_0-9:]+\]|cosmian_crypto_core::Sec
                         r'std::boxed::Box<|abe_policy::Version|curve25519_dalek::|p256::|elliptic_curve::)')
 
 
+VARIABLE_SIZE = re.compile(r'(Vec<|HashMap<|HashSet<|LinkedList<|String|Option<|RevisionMap|RevisionVec|Dict<|AccessStructure|Dimension|usize|u64)')
+
+
 def control_from_input(F, body, op):
     """The operand is a constant chosen by branches on deserializer input (if 0 == hint {A} else {B})."""
     l = op_local(op)
@@ -609,7 +612,7 @@ def fields(ctx):
             ctx.check(f in wreads or '*' in wreads, name, 'field %s written' % f,
                       'field `%s` of %s is never read by `write`: it is dropped from the wire format' % (f, name),
                       'read by write', w.where())
-            if ln is not None and not FIXED_SIZE.match(ftypes.get(f, '')):
+            if ln is not None and (lreads or VARIABLE_SIZE.search(ftypes.get(f, ''))) and not FIXED_SIZE.match(ftypes.get(f, '')):
                 ctx.check(f in lreads or '*' in lreads, name, 'field %s in length' % f,
                           'field `%s` of %s does not contribute to `length`' % (f, name), 'read by length', ln.where())
         # every field of the value built by read derives from the input
